@@ -150,6 +150,11 @@ impl Interpreter {
                         for _ in 1..=count as usize {
                             self.stmt(&repeat_times.body)?;
 
+                            // a RETURN in the body ends the loop (and the activation)
+                            if self.return_value.is_some() {
+                                break;
+                            }
+
                             // if the CONTINUE stmt was called handle it
                             if self.loop_stack.last().unwrap().should_continue {
                                 self.loop_stack.last_mut().unwrap().should_continue = false;
@@ -186,7 +191,12 @@ impl Interpreter {
 
                 while !Self::is_truthy(&self.expr(&repeat_until.condition)?) {
                     self.stmt(&repeat_until.body)?;
-                    
+
+                    // a RETURN in the body ends the loop (and the activation)
+                    if self.return_value.is_some() {
+                        break;
+                    }
+
                     // if the BREAK stmt was called handle it
                     if self.loop_stack.last().unwrap().should_break {
                         self.loop_stack.last_mut().unwrap().should_break = false;
@@ -246,6 +256,11 @@ impl Interpreter {
 
                     
                     self.stmt(&for_each.body)?;
+
+                    // a RETURN in the body ends the loop (and the activation)
+                    if self.return_value.is_some() {
+                        break;
+                    }
 
                     // if the BREAK stmt was called handle it
                     if self.loop_stack.last().unwrap().should_break {
@@ -333,6 +348,11 @@ impl Interpreter {
                         .is_some_and(|lc| lc.should_break || lc.should_continue)
                     {
                         // if we are in a loop then we need to STOP execution
+                        break;
+                    }
+
+                    // a RETURN ends the activation: nothing after it runs
+                    if self.return_value.is_some() {
                         break;
                     }
 
